@@ -2,3 +2,5 @@ import ExecModel.Basic
 import ExecModel.Cmd
 import ExecModel.Launcher
 import ExecModel.Props.C16
+import ExecModel.Preset
+import ExecModel.Props.C15
